@@ -335,7 +335,7 @@ exchange rates, as long as the resulting unit is defined:
 
 from __future__ import annotations
 
-from datetime import date
+from datetime import date, datetime
 from fractions import Fraction
 import math
 from numbers import Integral, Rational, Real
@@ -1092,6 +1092,9 @@ class MoneyConverter:
             except ValueError:
                 raise ValueError(f"Not a valid year: "
                                  f"{validity}.") from None
+        elif isinstance(validity, datetime):
+            # a datetime is a date: the day it lies in
+            validity = validity.date()
         elif not (validity is None or isinstance(validity, date)):
             raise ValueError(f"Not a valid period: {validity}.")
         # check type of validity
@@ -1144,6 +1147,9 @@ class MoneyConverter:
             # get the default only once, so that both rates used for a
             # triangulation are effective at the same date
             effective_date = self._get_dflt_effective_date()
+        if isinstance(effective_date, datetime):
+            # a datetime is a date: the day it lies in
+            effective_date = effective_date.date()
         base_currency = self.base_currency
         if base_currency == unit_currency:
             try:
